@@ -29,7 +29,7 @@ RULE = ("random histories of 3-40 events over 1-2 component groups, 1-3 regular 
         "history JSON; non-trivial = >=1 request observed after both resolvers hold a target")
 REQUIRED_BUCKETS = ["bounds-only-step-with-request", "only-one-target-changed", "both-targets-nonzero",
                     "expiry", "partial-failure-resend", "late-partial-failure-resend", "bounds-None", "doc-table", "request-on-bound"]
-REQUIRED_COUNTERS = ["requests_checked", "reports_checked"]
+REQUIRED_COUNTERS = ["requests_checked", "reported_targets_compared", "reports_checked"]
 ASSUMPTIONS = ["stubbed battery pool; PowerDistributor replaced by the harness reading the requests channel"]
 
 GROUPS = [frozenset({1, 2}), frozenset({7})]
@@ -247,6 +247,7 @@ def check(case: dict[str, Any], rec: Any) -> None:
         rec.count("loop_exceptions", len(mon.loop_exceptions))
     prev_state: dict[int, Any] = {}
     last_reported: dict[tuple[int, bool], float | None] = {}
+    subscribed_kinds = {(e["g"], e["op"]) for e in case["events"] if e["k"] == "prop"}
     nontrivial = False
     n_req = 0
     for st in out["steps"]:
@@ -295,6 +296,14 @@ def check(case: dict[str, Any], rec: Any) -> None:
             got = powers[-1]
             if abs(got - (reg + op)) > 1e-6:
                 rec.violation("request-differs-from-sum-of-targets", {**w, "expected_sum": reg + op})
+            else:
+                # ... and that is what the group's (subscribed) actors have been told last
+                for kind_op, told, cur in ((False, rr, s["reg"]), (True, ro, s["op"])):
+                    if (g, kind_op) in subscribed_kinds and cur is not None:
+                        rec.count("reported_targets_compared")
+                        if told is None or abs(told - cur) > 1e-6:
+                            rec.violation("request-sent-but-the-group's-actors-were-not-told-the-new-target",
+                                          {**w, "operating_point_actors": kind_op, "last_reported": told, "current": cur})
             b = st["bounds"][g]
             for pw in powers:
                 if b is None or b["sys"] is None:
